@@ -4,6 +4,7 @@ import numpy as np
 from props import _discrete as D
 
 ENV_BY_TIER = {"quick": {"NUMBA_DISABLE_JIT": "1"}, "thorough": {}}
+ENV = {"XDG_CACHE_HOME": "/verif/.work/disc/cache"}
 COQ_REQ = ("lib.Num", "model.Discrete", "model.DiscreteFloat")
 TOL = 1e-9   # relative, on returned node times / posterior means (measured <= 1e-13, see evidence notes)
 
@@ -13,7 +14,12 @@ RULE = ("metamorphic pairs: a base input (msprime, 2-7 contemporaneous samples, 
         "random times that only keep parent > child, which changes the order of unrelated nodes); both are dated "
         "with tsdate.inside_outside and tsdate.maximization, in a random probability space, (a) with an explicit "
         "prior grid carried through the permutation and (b) with the default conditional-coalescent prior built "
-        "by tsdate from population_size; results are compared through the permutation. A pair is non-trivial when "
+        "by tsdate from population_size and (c) with a prior built by tsdate.build_prior_grid on each copy (exact / "
+        "approximate / gamma, 4-20 timepoints, allow_unary for the 20% of multi-tree inputs with a unary chain); the same "
+        "options go to both copies (outside_standardize and cache_inside on/off, num_threads None/1(/2), numpy-typed "
+        "values); re-timing includes exactly tied times; ~40% of the base inputs carry vlib.gen.exotic decorations "
+        "(extra flag bits, ALL nodes renumbered, mutation-free sites, allele strings, populations, mutation times); "
+        "thorough adds 8 larger inputs (12-25 samples); results are compared through the permutation. A pair is non-trivial when "
         "the permutation is not the identity or the time order of the non-sample nodes changes; distinct by hash."
         "About half of the inputs carry 1-3 extra mutations that sit on NO edge (above the root of the local tree; valid tskit input); the references count only mutations on edges, computed from the tables.")
 ASSUME = ["tskit's table sort / tree-sequence validation (the transformed copy is rebuilt and sorted by tskit)",
@@ -22,13 +28,14 @@ ASSUME = ["tskit's table sort / tree-sequence validation (the transformed copy i
 
 def transform(rng, d):
     """renumber and/or re-time; returns (new dict, old->new id map, description)"""
-    what = rng.choice(["renumber", "renumber", "retime-monotone", "retime-free", "both", "both", "both"])
+    what = rng.choice(["renumber", "renumber", "retime-monotone", "retime-free", "retime-ties", "both", "both", "both"])
     m = {u: u for u in range(len(d["nodes_time"]))}
     out = d
     if what in ("renumber", "both"):
         out, m = D.renumber(out, rng)
-    if what in ("retime-monotone", "retime-free", "both"):
-        mode = "monotone" if what == "retime-monotone" else rng.choice(["free", "free", "monotone"])
+    if what in ("retime-monotone", "retime-free", "retime-ties", "both"):
+        mode = "monotone" if what == "retime-monotone" else ("ties" if what == "retime-ties" else
+                                                             rng.choice(["free", "free", "monotone", "ties"]))
         new = D.retime(out, rng, mode)
         if new is not None:
             out = new
@@ -40,15 +47,29 @@ def gen_pairs(ctx, n_multi, n_single):
     rng = ctx.rng
     pairs = []
     shapes = [s for k in range(2, 6) for s in D.tree_shapes(k)]
-    for k in range(n_multi + n_single):
-        if k < n_multi:
+    nbig = 8 if ctx.tier == "thorough" else 0
+    for k in range(n_multi + n_single + nbig):
+        unary = False
+        if k >= n_multi + n_single:
+            d = D.sim_dict(rng, n=rng.randint(12, 25), big=True)
+            kind = "big"
+        elif k < n_multi:
             d = D.sim_dict(rng, n=rng.randint(2, 7))
             kind = "multi"
+            if rng.random() < 0.2:
+                d2 = D.add_unary_chain(d, rng)
+                if d2 is not None:
+                    d, unary, kind = d2, True, "multi+unary"
         else:
             d = D.shape_to_tables(rng.choice(shapes), rng, L=rng.choice([1.0, 10.0, 1000.0]))
             d = D.canon(D.add_mutations(d, [rng.choice([0, 0, 1, 1, 2, 3]) for _ in d["edges"]], rng))
             kind = "single"
-        base = D.make_case(rng, d, kind=kind)
+        o = D.random_options(rng, ctx.tier == "thorough")
+        o["built_kind"] = rng.choice(["built", "built-approx", "built-gamma"])
+        o["prior_timepoints"] = rng.choice([4, 8, 20])
+        if kind == "big":
+            o["space"] = D.LOG
+        base = D.make_case(rng, d, kind=kind, allow_unary=unary, **o)
         d = base["ts"]
         d2, m, what = transform(rng, d)
         other = dict(base)
@@ -62,15 +83,25 @@ def gen_pairs(ctx, n_multi, n_single):
 
 
 def api(case, method, default_prior):
+    """default_prior: False = explicit prior rows carried through the permutation; "pop" = tsdate builds its
+    default prior from population_size; "built" = a prior built by tsdate.build_prior_grid on this input
+    (exact / approximate / gamma), as a user would"""
     import tsdate
     ts = D.ts_from_dict(case["ts"])
-    kw = dict(mutation_rate=case["mu"], eps=case["eps"], probability_space=case["space"],
+    kw = dict(mutation_rate=D.opt(case, "mu", case["mu"]), eps=D.opt(case, "eps", case["eps"]),
+              probability_space=case["space"], num_threads=case.get("num_threads"),
+              cache_inside=D.opt(case, "cache", bool(case.get("cache_inside"))),
               return_fit=True, record_provenance=False)
-    if default_prior:
+    if case.get("allow_unary"):
+        kw["allow_unary"] = True
+    if default_prior == "pop":
         kw["population_size"] = 1.0
+    elif default_prior == "built":
+        kw["priors"] = D.built_priors(dict(case, prior_kind=case.get("built_kind", "built")), ts)
     else:
         kw["priors"] = D.make_priors(case, ts)
     if method == "inside_outside":
+        kw["outside_standardize"] = D.opt(case, "out_std", bool(case.get("out_std", True)))
         new, fit = tsdate.inside_outside(ts, **kw)
         mn = [n.metadata.get("mn") if n.metadata else None for n in new.nodes()]
         return {"times": [float(x) for x in new.nodes_time], "mn": mn, "fit": fit}
@@ -91,8 +122,8 @@ def rel(a, b):
 def oracle_pair(ctx, base, other, m, what, stats):
     rp = {"case": base, "transformed": other, "map": {str(k): v for k, v in m.items()}, "what": what}
     n = len(base["ts"]["nodes_time"])
-    for default_prior in (False, True):
-        tag = "default-prior" if default_prior else "explicit-prior"
+    for default_prior in (False, "pop", "built"):
+        tag = {False: "explicit-prior", "pop": "default-prior", "built": "built-prior:" + str(base.get("built_kind"))}[default_prior]
         # ---- inside_outside
         try:
             a = api(base, "inside_outside", default_prior)
@@ -163,7 +194,7 @@ def run(ctx, model_ok=True):
     ctx.notes["tolerance"] = TOL
     if model_ok:
         # the model of the inside/outside passes on the transformed inputs (edge orders differ from the base)
-        cases = [o for _b, o, _m, _w in pairs[: ctx.n(20, 120)]]
+        cases = [o for _b, o, _m, _w in pairs[: ctx.n(20, 120)] if o["kind"] != "big"]
         res = []
         for c in cases:
             try:
